@@ -45,19 +45,29 @@ def replay_setup(d):
     if list(table.row_name) != want:
         return True, 'row names after the real setup_table_%s: %r; repaired printed names: %r (rows %r)' % (
             'AUTOUGH2' if obj.simulator == 'AUTOUGH2' else 'TOUGH2', list(table.row_name), want, [r[:40] for r in rows])
-    obj._file.seek(0)
-    try:
-        obj.read_table(kind)
-    except Exception as ex:
-        return True, 'read_table(%r) raised %s: %s' % (kind, type(ex).__name__, str(ex)[:100])
-    for pos, i in enumerate(order):
-        by_name, by_index = table[want[pos]], table[pos]
-        if by_name is None: return True, 'table[%r] is None' % (want[pos],)
-        for j, col in enumerate(table.column_name):
-            exp = _expected(rows[i].rstrip('\r\n'), toks[i][j]) if j < len(toks[i]) else 0.0
-            if not (by_name[col] == by_index[col] == exp):
-                return True, 'row %d column %s: by name %r, by index %r, printed %r' % (pos, col, by_name[col], by_index[col], exp)
-    return False, 'row names %r are the repaired printed names and name / index addressing agree' % (want,)
+    times = [('first result time', rows, toks, lines)]
+    if d.get('rows2'):
+        lines2, _ = cc.mini_table_lines(d['family'], kind, d['header'], d['between'], d['rows2'])
+        times.append(('second result time (read into the same table after the first)', d['rows2'], d['tokens2'], lines2))
+    for tname, trows, ttoks, tlines in times:
+        obj._file = cc.LineFile(tlines)
+        try:
+            obj.read_table(kind)
+        except Exception as ex:
+            return True, '%s: read_table(%r) raised %s: %s' % (tname, kind, type(ex).__name__, str(ex)[:100])
+        for pos, i in enumerate(order):
+            by_name, by_index = table[want[pos]], table[pos]
+            if by_name is None: return True, '%s: table[%r] is None' % (tname, want[pos],)
+            if len(ttoks[i]) > len(table.column_name):
+                return True, '%s: row %r prints %d numbers, the header has %d columns' % (tname, trows[i], len(ttoks[i]), len(table.column_name))
+            for j, col in enumerate(table.column_name):
+                exp = _expected(trows[i].rstrip('\r\n'), ttoks[i][j]) if j < len(ttoks[i]) else 0.0
+                if not (by_name[col] == by_index[col] == exp):
+                    return True, '%s: row %r column %s: by name %r, by index %r, printed %s (layout %r; rows of the table at the first time %r)' % (
+                        tname, trows[i].rstrip('\r\n'), col, by_name[col], by_index[col],
+                        repr(exp) if j < len(ttoks[i]) else 'nothing (blank trailing cell, 0.0)', table.row_format['values'],
+                        [r.rstrip('\r\n') for r in rows])
+    return False, 'row names %r are the repaired printed names; cells equal the printed numbers and name / index addressing agree at %d result time(s)' % (want, len(times))
 
 
 def replay(d):
